@@ -1,0 +1,45 @@
+//go:build verif
+
+package metrics
+
+import "time"
+
+// Hooks for the verification harness (build tag "verif"); never compiled into
+// production binaries.
+
+// VerifWindow exposes a sliding window with a caller-chosen sample lifetime
+// (the public path hard-codes 60 s).
+type VerifWindow struct {
+	w *slidingWindow
+}
+
+// NewWindowForVerif creates a sliding window and starts its cleaner.
+func NewWindowForVerif(lifetime time.Duration) (*VerifWindow, error) {
+	w, err := newSlidingWindow(lifetime)
+	if err != nil {
+		return nil, err
+	}
+	return &VerifWindow{w: w}, nil
+}
+
+// Add adds a sample.
+func (v *VerifWindow) Add(x int64) { v.w.Add(x) }
+
+// Samples returns the current samples.
+func (v *VerifWindow) Samples() []int64 { return v.w.Samples() }
+
+// Stop stops the cleaner goroutine.
+func (v *VerifWindow) Stop() { v.w.stopping <- struct{}{} }
+
+// VerifRegisterWindow pre-registers the window of key with the given lifetime,
+// so that AddSample(key, ...) and Get() work on it.
+func (stats *Stats) VerifRegisterWindow(key string, lifetime time.Duration) error {
+	w, err := newSlidingWindow(lifetime)
+	if err != nil {
+		return err
+	}
+	stats.wlock.Lock()
+	stats.windows[key] = w
+	stats.wlock.Unlock()
+	return nil
+}
